@@ -222,6 +222,10 @@ pub fn to_json<T: Serialize>(t: &T) -> String {
     serde_json::to_string(t).unwrap_or_default()
 }
 
+pub fn from_json<T: DeserializeOwned>(s: &str) -> Option<T> {
+    serde_json::from_str(s).ok()
+}
+
 pub fn last_panic() -> String {
     LAST_PANIC.with(|p| p.borrow().clone())
 }
